@@ -61,7 +61,13 @@ THEOREM = {
     'raise_order': ('raise_order', 'PyBasis_raise_order_eq'),
     'lower_order': ('lower_order', 'PyBasis_lower_order_eq'),
     'integrate': ('integrate', 'PyBasis_integrate_eq'),
+    'matches': ('matches', 'PyBasis_matches_eq_partial'),
 }
+# theorems that are weaker than extensional equality (say so in the obligation)
+PARTIAL = {'matches': 'hand model compares exactly, the code with np.allclose: only `exact match => code match` and the '
+                      'order/periodicity refusal are proved'}
+# corollaries audited together with the main theorems
+EXTRA_THEOREMS = ('PyBasis_insert_knot_eq_sorted',)
 # translated for completeness, no hand model to compare with: obligation = translates and elaborates
 TRANSLATION_ONLY = ('init_default', 'greville_at')
 
@@ -251,7 +257,7 @@ def _run(src, lean_dir):
             if name not in sec_failed and bad:
                 sec_failed[name] = 'depends on the failed obligation(s) %s' % ', '.join(bad)
     else:
-        names = sorted({thm for _, thm in THEOREM.values()})
+        names = sorted({thm for _, thm in THEOREM.values()} | set(EXTRA_THEOREMS))
         axioms = _print_axioms(lean_dir, names)
     for key, (sec, thm) in THEOREM.items():
         if key in failed:
@@ -266,6 +272,11 @@ def _run(src, lean_dir):
                 failed[key] = 'theorem %s not found in the built module' % thm
             elif not set(ax) <= ALLOWED_AXIOMS:
                 failed[key] = 'theorem %s uses axioms %s' % (thm, ','.join(sorted(set(ax) - ALLOWED_AXIOMS)))
+            elif key == 'insert_knot':
+                for ex in EXTRA_THEOREMS:
+                    axx = axioms.get(ex)
+                    if axx is None or not set(axx) <= ALLOWED_AXIOMS:
+                        failed[key] = 'corollary %s did not check or uses other axioms (%r)' % (ex, axx)
     # a method whose callee failed is not established either
     _ = lib_text
     return r, failed, axioms, notes, ok
@@ -288,7 +299,8 @@ def regenerate_pybasis(sp, lean_dir):
     if key in _MEM and os.path.exists(gen_path):
         return _MEM[key]
     cpath = os.path.join(_cache_dir(), key + '.json')
-    if os.path.exists(cpath) and os.path.exists(gen_path):
+    # the verdict is a function of the hashed inputs; VERIF_PYBASIS_NOCACHE=1 forces translation + builds anyway
+    if os.path.exists(cpath) and os.path.exists(gen_path) and not os.environ.get('VERIF_PYBASIS_NOCACHE'):
         try:
             c = json.load(open(cpath))
             if c.get('generated_sha') == hashlib.sha256(_read(gen_path).encode()).hexdigest():
@@ -316,10 +328,13 @@ def regenerate_pybasis(sp, lean_dir):
             detail = 'translated and elaborated (no hand model: no equality theorem)'
         elif good:
             detail = 'translated (%s); %s checked against the fresh definition' % (r['methods'][k]['detail'], thm)
+            if k in PARTIAL:
+                detail += ' [PARTIAL: %s]' % PARTIAL[k]
         else:
             detail = failed[k]
         obl.append({'name': 'PyBasis_' + k, 'ok': bool(good), 'class': None, 'detail': detail[:600], 'theorem': thm,
-                    'axioms': axioms.get(thm) if thm else None, 'python': 'BSplineBasis.' + T.py_name(k)})
+                    'axioms': axioms.get(thm) if thm else None, 'python': 'BSplineBasis.' + T.py_name(k),
+                    'kind': ('translation-only' if k in TRANSLATION_ONLY else 'partial' if k in PARTIAL else 'equality')})
     _MEM[key] = obl
     try:
         with open(cpath, 'w') as f:
@@ -338,8 +353,76 @@ def obligations_for(sp, lean_dir, methods):
     return [o for o in allo if o['name'] in want]
 
 
+# ---------------------------------------------------------------------------------------------------
+# sensitivity self-test: small source mutations must break the obligation of the mutated method
+# (and of what depends on it); comment / whitespace / docstring changes must break nothing.
+# (old text, new text, obligations that must fail)
+
+MUTS = {
+ 'ctor_lt_le':        ("if p < 1:", "if p <= 1:", ['__init__']),
+ 'ctor_spacings':     ("for i in range(p + k - 1):", "for i in range(p + k):", ['__init__']),
+ 'ctor_nondecr_sign': ("if knots[i + 1] - knots[i] < -state.knot_tolerance:", "if knots[i + 1] - knots[i] < state.knot_tolerance:", ['__init__']),
+ 'continuity_bisect': ("hi = bisect_left(self.knots, knot + state.knot_tolerance)", "hi = bisect_right(self.knots, knot + state.knot_tolerance)", ['continuity']),
+ 'insert_drop_ghost': ("            if mu <= p+r: # need to fix ghost knots on right side", "            if False and mu <= p+r: # need to fix ghost knots on right side", ['insert_knot']),
+ 'insert_coef':       ("C[i % (n + 1), i % n] = (new_knot - self.knots[i]) / (", "C[i % (n + 1), i % n] = (new_knot - self.knots[i+1]) / (", ['insert_knot']),
+ 'insert_guard_le':   ("if self.knots[i] <= new_knot and new_knot <= self.knots[i + 1]:", "if self.knots[i] < new_knot and new_knot <= self.knots[i + 1]:", ['insert_knot']),
+ 'start_index':       ("return self.knots[self.order - 1]", "return self.knots[self.order]", ['start']),
+ 'numfun':            ("return len(self.knots) - self.order - (self.periodic + 1)", "return len(self.knots) - self.order - self.periodic", ['num_functions']),
+ 'greville_div':      ("result.append(float(np.sum(self.knots[i + 1:i + p])) / (p - 1))", "result.append(float(np.sum(self.knots[i + 1:i + p])) / p)", ['greville']),
+ 'snap_tol':          ("if i < n and abs(self.knots[i]-t[j]) < state.knot_tolerance:", "if i < n and abs(self.knots[i]-t[j]) <= state.knot_tolerance:", ['snap']),
+ 'spans_slice':       ("for k in self.knots[p-1:-p+1]:", "for k in self.knots[p-1:-p]:", ['knot_spans']),
+ 'reverse_formula':   ("self.knots = (self.knots[::-1] - a) / (b - a) * (a - b) + b", "self.knots = (self.knots[::-1] - a) / (b - a) * (a - b) + a", ['reverse']),
+ 'reparam_check':     ("if end <= start:", "if end < start:", ['reparam']),
+ 'roll_t1':           ("t1 = self.knots[0] - self.knots[-p - k - 1]", "t1 = self.knots[0] - self.knots[-p - k]", ['roll']),
+ 'mkper_nreps':       ("n_reps = deg - continuity - 1", "n_reps = deg - continuity", ['make_periodic']),
+ 'raise_sort':        ("        knots.sort()\n", "", ['raise_order']),
+ 'lower_max':         ("knots = [ [k] * max(p-1-self.continuity(k), 1) for k in self.knot_spans(True)]", "knots = [ [k] * max(p-self.continuity(k), 1) for k in self.knot_spans(True)]", ['lower_order']),
+ 'integrate_scale':   ("N  = [(knot[i+p]-knot[i])*1.0/p * np.sum(N1[i:]-N0[i:]) for i in range(N0.size)]", "N  = [(knot[i+p]-knot[i])*1.0/(p+1) * np.sum(N1[i:]-N0[i:]) for i in range(N0.size)]", ['integrate']),
+ 'integrate_collapse':("M[j % n] += N[j]  # sum all wrapped images", "M[j % n] = N[j]  # sum all wrapped images", ['integrate']),
+ 'matches_periodic':  ("if self.order != bspline.order or self.periodic != bspline.periodic:", "if self.order != bspline.order:", ['matches']),
+ 'insert_bisect':     ("mu = bisect_right(self.knots, new_knot)", "mu = bisect_left(self.knots, new_knot)", ['insert_knot']),
+ 'insert_range':      ("for i in range(mu, n + 1):", "for i in range(mu, n):", ['insert_knot']),
+ 'end_index':         ("return self.knots[-self.order]", "return self.knots[-self.order - 1]", ['end']),
+ 'default_arg':       ("def reparam(self, start=0, end=1):", "def reparam(self, start=0, end=2):", ['reparam']),
+ 'unknown_syntax':    ("        p = self.order\n        n = self.num_functions()\n        if index is None:", "        p = self.order\n        n = self.num_functions()\n        while False: pass\n        if index is None:", ['greville']),
+ 'comment_only':      ("        # mu is the index of last non-zero (old) basis function", "        # mu is the index of the last non-zero (old) basis function   ", []),
+ 'whitespace_only':   ("        deg = self.order - 1\n", "        deg  =  self.order - 1\n\n", []),
+ 'docstring_only':    ('"""Reverse parametric domain, keeping start/end values unchanged."""', '"""Reverse the parametric domain."""', []),
+}
+
+
+def selftest(sp, lean_dir, names=None):
+    """Runs every mutation of MUTS on the overlay's basis.py *text* against a private copy of the lake
+    project (the shared one is not touched).  Returns {name: {'expected', 'failed', 'as_expected'}}."""
+    import shutil
+    import tempfile
+    src = _read(os.path.join(os.path.dirname(os.path.abspath(sp.__file__)), 'basis.py'))
+    tmp = tempfile.mkdtemp(prefix='pybasis-selftest-')
+    priv = os.path.join(tmp, 'lean')
+    res = {}
+    try:
+        shutil.copytree(lean_dir, priv, symlinks=True)
+        for nm, (old, new, expect) in MUTS.items():
+            if names and nm not in names:
+                continue
+            if src.count(old) < 1:
+                res[nm] = {'expected': expect, 'failed': None, 'as_expected': False, 'note': 'pattern not found in basis.py'}
+                continue
+            r, failed, _ax, _notes, _ok = _run(src.replace(old, new, 1), priv)
+            bad = [k for k in T.ORDER if k in failed]
+            good = (set(expect) <= set(bad)) if expect else (bad == [])
+            res[nm] = {'expected': expect, 'failed': bad, 'as_expected': good}
+            print('%-20s %s failed=%s' % (nm, 'as expected' if good else 'UNEXPECTED', bad), flush=True)
+    finally:
+        shutil.rmtree(tmp, ignore_errors=True)
+    return res
+
+
 if __name__ == '__main__':
     from vlib import impl, model
     sp_, _info = impl.load()
+    if '--selftest' in sys.argv:
+        out = selftest(sp_, model.LEAN_DIR, [a for a in sys.argv[1:] if not a.startswith('--')])
+        sys.exit(0 if all(v['as_expected'] for v in out.values()) else 1)
     for o in regenerate_pybasis(sp_, model.LEAN_DIR):
         print('%-28s %-5s %s' % (o['name'], 'ok' if o['ok'] else 'FAIL', o['detail'][:150]))
